@@ -116,7 +116,22 @@ fn t_crit(k: u64) -> f64 {
 impl Scenario for PosteriorScenario {
     fn run(&self) -> RunOutcome {
         let mut out = RunOutcome::default();
-        let pname = self.preset.name();
+        let kin = match &self.preset {
+            Preset::DiagNuts(s) if matches!(s.trajectory_kind, nuts_rs::KineticEnergyKind::ExactNormal) => "exact_normal",
+            Preset::LowRankNuts(s) if matches!(s.trajectory_kind, nuts_rs::KineticEnergyKind::ExactNormal) => "exact_normal",
+            Preset::FlowNuts(s) if matches!(s.trajectory_kind, nuts_rs::KineticEnergyKind::ExactNormal) => "exact_normal",
+            _ => "euclidean",
+        };
+        let fam = match &self.target {
+            Target::DiagNormal { .. } => "diag_normal",
+            Target::DenseNormal { .. } => "dense_normal",
+            Target::StudentT { .. } => "student_t",
+            Target::LogGamma { .. } => "log_gamma",
+            _ => "other",
+        };
+        // violation keys carry the cell: preset / kinetic energy / target family
+        let pname = format!("{}/{kin}/{fam}", self.preset.name());
+        let pname = pname.as_str();
         let d = self.target.dim();
         let nt = self.preset.num_tune() as usize;
         let cov_diag: Option<Vec<f64>> = if let Target::DenseNormal { prec, .. } = &self.target { Some(inv_diag(prec, d)) } else { None };
@@ -158,6 +173,12 @@ impl Scenario for PosteriorScenario {
                 return out;
             }
             let post = &h.draws[nt..];
+            if std::env::var("VERIF_DEBUG").is_ok() && c < 6 {
+                let ss = post.last().map(|d| d.progress.step_size).unwrap_or(0.0);
+                let steps = post.iter().map(|d| d.progress.num_steps as f64).sum::<f64>() / post.len() as f64;
+                let acc = post.iter().filter_map(|d| d.f64("mean_tree_accept")).sum::<f64>() / post.len() as f64;
+                eprintln!("chain {c}: step size {ss:.4}, mean steps {steps:.2}, mean accept {acc:.3}");
+            }
             post_div += post.iter().filter(|x| x.progress.diverging).count() as u64;
             for i in 0..d {
                 let xs: Vec<f64> = post.iter().map(|x| x.pos[i]).collect();
@@ -225,6 +246,11 @@ impl Scenario for PosteriorScenario {
                 let se_q = (PROBS[q] * (1.0 - PROBS[q]) / self.n_truth.max(1) as f64).sqrt() * if cov_diag.is_some() { 0.0 } else { 1.0 };
                 let (t, m, se) = stat(&cover[i][q], PROBS[q], se_q);
                 worst = worst.max(t.abs());
+                if (t.abs() > crit || q == 0) && std::env::var("VERIF_DEBUG").is_ok() {
+                    eprintln!("coverage per chain (coordinate {i}, q {}): {:?}", PROBS[q], cover[i][q].iter().map(|x| (x * 1000.0).round() / 1000.0).collect::<Vec<_>>());
+                    eprintln!("means per chain: {:?}", means[i].iter().map(|x| (x * 100.0).round() / 100.0).collect::<Vec<_>>());
+                    eprintln!("vars per chain: {:?}", vars[i].iter().map(|x| (x * 100.0).round() / 100.0).collect::<Vec<_>>());
+                }
                 if t.abs() > crit {
                     out.violate(format!("C04/quantile_coverage/{pname}"), format!("coordinate {i}: P(x <= q_{}) = {m:.4} (se {se:.4}) over {k} chains: t = {t:.1} (critical {crit})", PROBS[q]));
                 }
